@@ -1174,6 +1174,11 @@ func (c *Ctx) checkModelSiblingsC18() {
 		}
 		L.Check(aok && analytical == !stub, "model-siblings", im.rel+".(*"+im.typ+")", "Analytical() ⇔ Pij implemented", c.P.Pos(an.F.Pos()),
 			fmt.Sprintf("Analytical() = %v, Pij is a stub: %v", analytical, stub), fmt.Sprintf("Analytical() = %v but Pij is a stub returning -1: %v — transition probabilities would be -1, or a working formula would be ignored", analytical, stub))
+		// a closed form is used instead of the eigen decomposition: it must be one that pij-analytic compares with it
+		if analytical && im.typ != "JCModel" && im.typ != "K2PModel" {
+			L.Unknown("pij-analytic", im.rel+".(*"+im.typ+")", "closed form compared with the eigen decomposition", c.P.Pos(an.F.Pos()),
+				"Analytical() is true for a model whose closed-form Pij has no symbolic comparison with R·exp(Λl)·L here (compared: JC, K2P): transition probabilities would come from a formula nothing checks against the model's eigen system")
+		}
 		nk, nok := retConst(ns.F)
 		v, _ := cInt(nk)
 		L.Check(nok && v == im.n, "model-siblings", im.rel+".(*"+im.typ+")", "NState()", c.P.Pos(ns.F.Pos()), fmt.Sprintf("returns %d", v), fmt.Sprintf("NState() returns %v, the model's matrices have dimension %d", nk, im.n))
